@@ -4,6 +4,24 @@ import json, os
 HERE = os.path.dirname(os.path.dirname(os.path.abspath(__file__)))
 ALL = ["C%02d" % i for i in range(1, 21)]
 
+# what later rounds added to the rule set of a property (DESIGN.md R1.4, R1.5b, R1.7)
+ADDENDA = {
+ "C01": " Added since: the table `under which desugaring state is which child converted` (138 reviewed rows, resolved through lets and private helpers), State setters folded over a symbolic state, the pairing-by-position obligations of the project pipeline (each translation is written to its own file).",
+ "C03": " Added since: invariants behind reviewed reasons are checked, not asserted (StringName::to_py yields a type, branch() after branch_point()); the acyclicity validation covers the final class table, uses the key of the lookup, and rejects a type parameter as parent; lookup recursions are classified by the edges they follow.",
+ "C04": " Added since: accumulators of the assignability functions are monotone, no truncating adapter before a per-element check, unify_type's accept condition and direction (shared with C05/C06).",
+ "C05": " Added since: the constraint that replaces a field access keeps the side the access was on (R-C05-6, D61), truncation census.",
+ "C06": " Added since: Name::union folded over seven small unions with a branch-coverage obligation; the field-initialisation rule (only a direct `self.f := e` marks f assigned).",
+ "C11": " Added since: no pattern over an annotation carrier discriminates on `ty`; an assignment or setter call that copies the flag into an annotate field is the copy it is.",
+ "C12": " Added since: a hand-written Ord is at least as fine as Eq (R-C12-8); inherited members are excluded by name; review keys are attributed to the owning function and iteration spellings are one kind.",
+ "C13": " Added since: every path through a list-building loop pushes exactly once; lists paired by position are not re-ordered or shortened in place.",
+ "C14": " Added since: AST::from_str folded over a token stream (what reaches the parser is the stream without comments, in order).",
+ "C15": " Added since: census of textual operations in check:: and generate::; every ordering decision of the generator with the type of its key (R-C15-7; the sort of union members by name is known finding D57); constant tables used with `contains` are read.",
+ "C16": " Added since: add_import / add_from_import folded over a sequence of registrations (every module and name once, under its own module).",
+ "C17": " Added since: `init` folded over five class shapes, CoreFunOp::from folded as the inverse of Display, the pairing-by-position obligations of the project pipeline.",
+ "C19": " Added since: the text that is parsed is the text that is attached; index and label of each quoted line evaluated for reported lines 1..6; the panic census covers everything the renderers reach.",
+ "C20": " Added since: every `return` of Name::is_superset_of is one of the two reviewed rejections; monotone accumulators; census of the operations that merge or drop nullability (R-C20-7); unify_type's accept condition and direction (shared).",
+}
+
 # property -> (technique, level text, level note, design ref)
 CLAIMED = {
  "C10": ("template/precedence-table extraction + exhaustive triple enumeration against the Python grammar table",
@@ -140,7 +158,7 @@ def main():
             "evidence_file": f"/verif/evidence/{pid}.json",
             "replay_cmd_template": f"./check {pid} --replay {{path}}",
             "engine": "mirfacts+synfacts+rules",
-            "level_claimed": {"category": "other", "text": text, "design_ref": "DESIGN.md " + ref},
+            "level_claimed": {"category": "other", "text": text + ADDENDA.get(pid, ""), "design_ref": "DESIGN.md " + ref + " and R1"},
             "level_note": note,
             "technique": "static analysis: " + tech,
         })
